@@ -374,14 +374,15 @@ class SibEv(Event):
 
 
 @obligation(quick=240, thorough=900,
-            partitions_quick=[f"c0 == {a} and c1 == {b}" for a in range(3) for b in range(3)],
-            partitions_thorough=[f"c0 == {a} and c1 == {b} and c2 == {c}" for a in range(3) for b in range(3) for c in range(3)],
-            what="whole run (real run() loop on the virtual-time loop): one worker returns a StopEvent while its sibling is still in flight and "
-                 "writes to the stream WHEN IT IS CANCELLED (try/finally, except CancelledError): nothing is published after the StopEvent",
+            partitions_quick=[f"mode == {m} and c0 == {a}" for m in range(4) for a in range(3)],
+            partitions_thorough=[f"mode == {m} and c0 == {a} and c1 == {b}" for m in range(4) for a in range(3) for b in range(3)],
+            what="whole run (real run() loop on the virtual-time loop): the run ends — a worker returns a StopEvent, a worker fails without retry, "
+                 "cancel_run arrives, or the run's timeout elapses — while a sibling is still in flight and writes to the stream WHEN IT IS "
+                 "CANCELLED (try/finally, except CancelledError): exactly one terminal event of the matching kind, nothing published after it",
             bounds={"schedule decisions": "3 (quick) / 5 (thorough), 3 options each", "workers": 2, "sibling": "streams on cancellation: in finally / in except CancelledError + re-raise / swallows the cancellation"})
-def ob_stop_vs_sibling_cleanup(c0: int, c1: int, c2: int, c3: int, c4: int, style: int) -> bool:
+def ob_stop_vs_sibling_cleanup(c0: int, c1: int, c2: int, c3: int, c4: int, style: int, mode: int = 0) -> bool:
     """
-    pre: 0 <= c0 <= 2 and 0 <= c1 <= 2 and 0 <= c2 <= 2 and 0 <= c3 <= 2 and 0 <= c4 <= 2 and 0 <= style <= 2
+    pre: 0 <= c0 <= 2 and 0 <= c1 <= 2 and 0 <= c2 <= 2 and 0 <= c3 <= 2 and 0 <= c4 <= 2 and 0 <= style <= 2 and 0 <= mode <= 3
     pre: THOROUGH_SIB or (c3 == 0 and c4 == 0)
     post: _
     """
@@ -392,6 +393,7 @@ def ob_stop_vs_sibling_cleanup(c0: int, c1: int, c2: int, c3: int, c4: int, styl
     from workflows.events import Event
 
     style, c0, c1, c2, c3, c4 = conc(style, 0, 2), conc(c0, 0, 2), conc(c1, 0, 2), conc(c2, 0, 2), conc(c3, 0, 2), conc(c4, 0, 2)
+    mode = conc(mode, 0, 3)   # how the run ends: 0 a StopEvent, 1 a step failure (no retry), 2 cancel_run from outside, 3 the run's timeout
     env = Env([c0, c1, c2, c3, c4])  # concrete by now: every solver decision is taken before the scenario starts
     published: list = []
 
@@ -415,6 +417,8 @@ def ob_stop_vs_sibling_cleanup(c0: int, c1: int, c2: int, c3: int, c4: int, styl
         async def work(self, ctx: Context, ev: SibEv) -> StopEvent | None:
             if ev.i == 0:
                 await env.gate(0)
+                if mode == 1:
+                    raise RuntimeError("boom")
                 return StopEvent(result=0)
             if style == 0:
                 try:
@@ -433,17 +437,31 @@ def ob_stop_vs_sibling_cleanup(c0: int, c1: int, c2: int, c3: int, c4: int, styl
     outcome: list = []
 
     async def main():
-        h = W(timeout=None, runtime=Rt(env)).run(run_id="r")
+        h = W(timeout=(5 if mode == 3 else None), runtime=Rt(env)).run(run_id="r")
+        if mode == 2:
+            for _ in range(12):
+                await asyncio.sleep(0)
+            await h.cancel_run(timeout=1)
         try:
-            outcome.append(("result", await h))
+            outcome.append((1, await h))
+        except WorkflowCancelledByUser:
+            outcome.append((3, None))
+        except WorkflowTimeoutError:
+            outcome.append((4, None))
+        except RuntimeError as e:
+            outcome.append((2 if str(e) == "boom" else 0, e))
         except Exception as e:  # noqa: BLE001
-            outcome.append(("other", e))
+            outcome.append((0, e))
         for _ in range(20):  # let every straggler run: nothing may reach the stream after the terminal event
             await asyncio.sleep(0)
 
     run_loop(main)
     terms = [e for e in published if _terminal_kind(e) != 0]
-    return len(outcome) == 1 and outcome[0][0] == "result" and len(terms) == 1 and published[-1] is terms[0] and _terminal_kind(terms[0]) == 1
+    if len(outcome) != 1 or outcome[0][0] == 0:
+        return False
+    if mode == 0 and outcome[0][0] != 1:
+        return False
+    return len(terms) == 1 and published[-1] is terms[0] and _terminal_kind(terms[0]) == outcome[0][0]
 
 
 THOROUGH_SIB = B(False, True)
